@@ -97,7 +97,8 @@ def run_proc(p):
     part = None
     try:
         if p.stdout_part:
-            for line in reversed(out.splitlines()):
+            # split on \n only: str.splitlines() also splits on U+0085 and friends, which sample strings may contain
+            for line in reversed(out.split("\n")):
                 if line.startswith("{") and '"property"' in line:
                     part = json.loads(line)
                     break
